@@ -26,7 +26,7 @@ EXPLANATION = ('A frozen, hand-confirmed inventory of every load-time rejection 
                'the bytecode loader; a def-use rule that no failure result is dropped; the recursion guard of the decoder; constant '
                'coherence; and the ownership rules for the failed-load exits.  This decides that no tabled check was removed or weakened '
                'and that failures propagate -- it does NOT decide that the checks are sufficient for memory safety on arbitrary bytes.')
-FLOORS = {'VALIDATOR': 270, 'OPERANDCHECK': 60, 'ERRDISC': 110, 'NESTGUARD': 3, 'CONST': 4, 'OWNFIELD': 40, 'OWNLOCAL': 12, 'TABLETS': 8}
+FLOORS = {'VALIDATOR': 270, 'OPERANDCHECK': 60, 'ERRDISC': 110, 'NESTGUARD': 3, 'CONST': 4, 'OWNFIELD': 40, 'OWNLOCAL': 12, 'TABLETS': 8, 'LOADERSIB': 2}
 
 STATUS_FUNCS = {
     '(anonymous namespace)::load_face', 'graphite2::Face::readGlyphs', 'graphite2::Face::readFeatures', 'graphite2::Face::readGraphite',
@@ -268,6 +268,12 @@ def run(run):
     c16.overwrite(run, fx)
     c16.freenull(run, fx)
     c16.ownlocal(run, fx, None)
+    from . import c10
+    try:
+        c10.boxcount(run, fx)      # gr_face_preloadGlyphs: the box pool is as large as what read_box writes into it (shared with C10, C02)
+        c10.boxsize(run, fx)
+    except Exception as ex:
+        run.broken('LOADERSIB', 'box records', str(ex))
     run.assume('allocation failure is outside the quantifier (inputs, configurations)')
     run.observe('general absence of out-of-bounds reads in the table parsers is not decided: the parsers are safe partly by arithmetic that no check states '
                 '(e.g. Face::readGraphite reads the i-th sub-table offset without a size test and is in bounds only because accepted sub-tables are >= 20 bytes)')
